@@ -101,10 +101,10 @@ Fixpoint walk (c : cfg) (s : state) (w : wstate) (steps : list (sop * obs)) (sev
 
 Fixpoint nodup_b (l : list N) : bool :=
   match l with [] => true | x :: r => negb (existsb (N.eqb x) r) && nodup_b r end.
-(* scripts use pairwise distinct names and (through the clock hook) distinct creation times *)
+(* scripts use (through the clock hook) pairwise distinct creation times; names may repeat (automatic
+   checkpoints are named after the statement kind): a name then means its newest checkpoint *)
 Definition well_formed (steps : list (sop * obs)) : bool :=
-  nodup_b (flat_map (fun e => match fst e with SCheckpoint _ now _ => [now] | _ => [] end) steps)
-  && nodup_b (flat_map (fun e => match fst e with SCheckpoint n _ _ => [n] | _ => [] end) steps).
+  nodup_b (flat_map (fun e => match fst e with SCheckpoint _ now _ => [now] | _ => [] end) steps).
 
 (* (max_checkpoints, steps with observations) *)
 Definition script_case := (N * list (sop * obs))%type.
